@@ -172,5 +172,20 @@ fn main() {
         let ok = verdict.contains(text.lines().next().unwrap_or("<none>"));
         println!("post\tp-mocked-report\t{}\t{}\t{}", if ok { "remembered" } else { "forgotten" }, text.lines().next().unwrap_or(""), verdict.lines().next().unwrap_or(""));
     }
+    // the mock panics inside the destructor of a value the instance itself owns (lent through `make_ref`), i.e. WHILE teardown
+    // releases the value chain; the destructor swallows it: the verification that is under way must still fail with that error
+    for via in ["verify", "drop"] {
+        static INDUCED: std::sync::Mutex<String> = std::sync::Mutex::new(String::new());
+        struct CallsOnDropOwned(Unimock);
+        impl Drop for CallsOnDropOwned {
+            fn drop(&mut self) { let t = caught(|| { self.0.a1(9); }); *INDUCED.lock().unwrap() = t; }
+        }
+        let u = Unimock::new(MsgMock::a1.each_call(matching!(1)).returns(1u32).at_least_times(0));
+        let _lent: &CallsOnDropOwned = u.make_ref(CallsOnDropOwned(u.clone()));
+        let verdict = if via == "verify" { caught(move || u.verify()) } else { caught(move || drop(u)) };
+        let text = INDUCED.lock().unwrap().clone();
+        let ok = verdict != "<no panic>" && !text.is_empty() && verdict.contains(text.lines().next().unwrap_or("<none>"));
+        println!("post\tp-during-teardown-{via}\t{}\t{}\t{}", if ok { "remembered" } else { "forgotten" }, text.lines().next().unwrap_or(""), verdict.lines().next().unwrap_or(""));
+    }
     post("p-order", Unimock::new((MsgMock::a1.next_call(matching!(1)).returns(1u32), MsgMock::a2.next_call(matching!(2, "b")).returns(2u32))), &|u| { u.a2(2, "b"); });
 }
